@@ -4,4 +4,5 @@ CONSTANTS
   ArchSize = 8
   DEV_OccAddsOrientation = FALSE
   DEV_PbWriteTouchesDefaultdict = TRUE
+  DEV_NetworkCopyShallow = FALSE
 PROPERTY PropFrame
